@@ -5,6 +5,7 @@ Require Import V.Lib.Base V.Lib.Calls V.Lib.Contract.
 Require V.C09.Model V.C04.BufSafe V.C04.Model.
 Require V.C10.Model V.C10.ProofsContract V.C10.ProofsFuel.
 Require V.C01.Read V.C03.ProofsContract.
+Require V.C07.Model V.C07.ProofsStream V.C07.ProofsContract.
 Local Open Scope Z_scope.
 
 (* Index safety and termination of the read buffer for arbitrary bytes (NUL, CR/LF mixes, ...), arbitrary operation
@@ -43,6 +44,30 @@ Proof.
   split; [exact (V.C03.ProofsContract.reader_steps_closed t) | exact (V.C03.ProofsContract.no_fuel_exhaustion t)].
 Qed.
 Print Assumptions c04_aspif_contract.
+
+(* smodels reader (claspExt / filter arbitrary, cEdge = cHeuristic = false): the same for EVERY byte string and every option set.
+   Protocol order and every range clause of the contract hold unconditionally, except that the priority handed to minimize() is
+   the reader's counter of optimize statements (minPrio++), known to lie in 0 .. |t|: the full contract_ok therefore carries the
+   hypothesis |t| < 2^31.  An accepted input leaves no step open; no loop of the model runs out of fuel (each iteration consumes
+   input); every reported line lies inside the text. *)
+Theorem c04_smodels_contract : forall (o : V.C07.Model.opts) (t : list Z),
+  (protocol_ok 0 (fst (V.C07.Model.read_smodels o t)) = true /\
+   forall c, In c (fst (V.C07.Model.read_smodels o t)) ->
+     match c with
+     | CMin p l => 0 <= p <= Z.of_nat (length t) /\ forallb (wlit_ok false) l = true
+     | _ => call_ok c = true
+     end) /\
+  (Z.of_nat (length t) < 2 ^ 31 -> contract_ok (fst (V.C07.Model.read_smodels o t)) = true) /\
+  (forall u, snd (V.C07.Model.read_smodels o t) = V.C07.Model.Ok u -> steps_closed (fst (V.C07.Model.read_smodels o t)) = true) /\
+  snd (V.C07.Model.read_smodels o t) <> V.C07.Model.Fuel /\
+  (forall ln, snd (V.C07.Model.read_smodels o t) = V.C07.Model.Err ln -> 1 <= ln <= 1 + V.C07.ProofsStream.nl t).
+Proof.
+  intros o t. split; [exact (V.C07.ProofsContract.delivered_calls o t)|].
+  split; [exact (V.C07.ProofsContract.reader_contract o t)|].
+  split; [exact (V.C07.ProofsContract.reader_steps_closed o t)|].
+  split; [exact (V.C07.ProofsContract.no_fuel_exhaustion o t) | exact (V.C07.ProofsContract.line_bound o t)].
+Qed.
+Print Assumptions c04_smodels_contract.
 
 (* the contract predicate is not vacuous: it rejects a directive outside a step and a zero literal *)
 Example c04_contract_discriminates :
